@@ -278,3 +278,36 @@ Theorem child_env d replace parent key :
 Proof.
   unfold generate_env. destruct (truthy replace); [reflexivity | apply lookup_env_update].
 Qed.
+
+Theorem hide_table :
+  normalize_hide ONone ONone ONone = Some [] /\
+  normalize_hide (OBool false) ONone ONone = Some [] /\
+  normalize_hide (OBool true) ONone ONone = Some ["stdout"; "stderr"] /\
+  normalize_hide (OStr "both") ONone ONone = Some ["stdout"; "stderr"] /\
+  normalize_hide (OStr "out") ONone ONone = Some ["stdout"] /\
+  normalize_hide (OStr "stdout") ONone ONone = Some ["stdout"] /\
+  normalize_hide (OStr "err") ONone ONone = Some ["stderr"] /\
+  normalize_hide (OStr "stderr") ONone ONone = Some ["stderr"] /\
+  (forall v o e, normalize_hide v o e <> None ->
+     In v [ONone; OBool false; OBool true; OStr "both"; OStr "out"; OStr "stdout"; OStr "err"; OStr "stderr"]) /\
+  (forall v o e l, normalize_hide v o e = Some l ->
+     (o <> ONone -> ~ In "stdout"%string l) /\ (e <> ONone -> ~ In "stderr"%string l)).
+Proof.
+  repeat split; try reflexivity.
+  - intros v o e H. rewrite hide_agree in H. unfold named_streams in H.
+    destruct v as [| [|] | s | | | |]; try (exfalso; apply H; reflexivity); simpl; auto 10.
+    destruct (String.eqb s "both") eqn:E1; [apply String.eqb_eq in E1; subst; simpl; auto 10|].
+    destruct (String.eqb s "out") eqn:E2; [apply String.eqb_eq in E2; subst; simpl; auto 10|].
+    destruct (String.eqb s "stdout") eqn:E3; [apply String.eqb_eq in E3; subst; simpl; auto 10|].
+    destruct (String.eqb s "err") eqn:E4; [apply String.eqb_eq in E4; subst; simpl; auto 10|].
+    destruct (String.eqb s "stderr") eqn:E5; [apply String.eqb_eq in E5; subst; simpl; auto 10|].
+    simpl in H. exfalso; apply H; reflexivity.
+  - intros N I. rewrite hide_agree in H. destruct (named_streams v); [|discriminate].
+    injection H as <-. apply filter_In in I as [_ I].
+    destruct o; [contradiction| | | | | |]; simpl in I; discriminate.
+  - intros N I. rewrite hide_agree in H. destruct (named_streams v); [|discriminate].
+    injection H as <-. apply filter_In in I as [_ I].
+    destruct e; [contradiction| | | | | |]; simpl in I;
+      rewrite ?andb_true_r, ?andb_false_r in I; simpl in I; try discriminate;
+      destruct (negb _) in I; discriminate.
+Qed.
